@@ -2,6 +2,7 @@
 Proof: coq/Properties/C13.v.  Correspondence: quality_trim_index,
 nextseq_trim_index, QualityTrimmer, NextseqQualityTrimmer, parse_cutoffs vs the
 extracted Gallina model.  Oracle (search only): direct suffix sums."""
+import json
 import itertools
 
 from .. import core, buildimpl
@@ -284,6 +285,38 @@ def check(ctx):
                 ctx.violation("system: reported quality-trimmed bases differ from the bases removed",
                               {"case": ["system", res["argv"][5:-1]], "reads": [list(x) for x in reads], "observed": rep, "expected": before - after,
                                "why": "report says %d bp quality-trimmed, %d were removed" % (rep, before - after)})
+    # paired-end: the figures reported for R1 and for R2 are what the quality-trimming steps removed from that mate
+    from .. import pairutil as P
+    from .. import pairprops as PP
+    npair = 0
+    with S.Scratch() as d:
+        for _ in range(ctx.size(15, 150)):
+            b = S.Cfg()
+            r = rng.random()
+            if r < 0.7:
+                b.nextseq = rng.choice([5, 10, 20, 30])
+            if r > 0.4:
+                b.qcut = rng.choice(["10", "20", "15,10", "5,0"])
+            pc = P.PCfg(base=b)
+            if b.qcut is not None and rng.random() < 0.5:
+                pc.qcut2 = rng.choice(["0", "25", "10,20"])
+            if rng.random() < 0.3:
+                b.cuts = (rng.choice([1, 3, -2]),)
+            pairs = []
+            for i in range(rng.choice([1, 4, 8])):
+                a1, a2 = S.make_read(rng, i, [], False), S.make_read(rng, i, [], False)
+                pairs.append((("r%d" % i, a1[1], a1[2]), ("r%d" % i, a2[1], a2[2])))
+            res = P.run_impl(pc, pairs, d)
+            npair += 1
+            ctx.count(("sys-paired", json.dumps(pc.to_json(), sort_keys=True), len(pairs)), True)
+            if res["exit"] != 0:
+                ctx.violation("system: implementation fails (paired)", {"argv": res["argv"], "pairs": [[list(x), list(y)] for x, y in pairs], "exit": res["exit"]})
+                continue
+            why = PP.oracle_step_counts({"cfg": pc, "pairs": pairs, "impl": res}, d)
+            if why:
+                ctx.violation("system: reported quality-trimmed bases per mate differ from the bases removed",
+                              {"case": ["system-paired", pc.to_json()], "pairs": [[list(x), list(y)] for x, y in pairs], "why": why})
+    dist["system/quality_trimmed_count_paired"] = npair
     dist["system/quality_trimmed_count"] = nsys
     ctx.coverage["search_note"] = "the oracle (direct suffix-sum restatement of the BWA rule) was run on all %d cases of this run" % len(cases)
 
